@@ -51,13 +51,16 @@ SLOTS.append(("before", "decorator", "dec", "dup"))
 SLOTS.append(("after", "decorator", "dec", "dup#2"))
 
 KINDS = [(k, ev) for k in ("external", "self", "internal") for ev in ("e1", "e2")] + \
-        [("rejected-first", "e1"), ("rejected-twin", "e1"), ("initial", None)]
+        [("rejected-first", "e1"), ("rejected-twin", "e1"), ("initial", None),
+         # the focal transition is declared by a subclass, out of a state inherited from a base
+         # class that was already instantiated and driven
+         ("inherited", "e1"), ("inherited", "e2")]
 ENGINES = ("sync-rtc", "sync-nonrtc", "async-all", "async-first", "async-wrapped")
 
 
 def make_spec(pop, kind, mask):
     """pop: tuple of slot indexes."""
-    dst = "b" if kind in ("external", "rejected-first", "rejected-twin") else "a"
+    dst = "b" if kind in ("external", "rejected-first", "rejected-twin", "inherited") else "a"
     if kind == "initial":
         dst = "a"          # the start state: its enter group is the only one that may run
     inl = {g: [] for g in ("validators", "cond", "unless", "before", "on", "after")}
@@ -125,9 +128,13 @@ def make_spec(pop, kind, mask):
               cond=tuple(inl["cond"]), unless=tuple(inl["unless"]),
               validators=tuple(inl["validators"]), before=tuple(inl["before"]),
               on=tuple(inl["on"]), after=tuple(inl["after"]))
-    trans.append(focal)
-    trans += [T("a", "b", ("tob",)), T("a", "c", ("toc",)), T("b", "a", ("back",)),
-              T("c", "a", ("back",))]
+    rest = [T("a", "b", ("tob",)), T("a", "c", ("toc",)), T("b", "a", ("back",)),
+            T("c", "a", ("back",))]
+    if kind == "inherited":
+        trans = rest + [focal]       # build(split=len(rest)): the focal one is the subclass's
+    else:
+        trans.append(focal)
+        trans += rest
     # every coroutine callback really suspends once (await point), so that phases which are
     # started concurrently or out of order show up in the begin/end markers
     awaits = tuple((("sm" if p == "dec" else p), n, 1) for (p, n, f) in provided if f)
@@ -146,7 +153,7 @@ def run_scenario(pop, kind, ev, mask):
         return None, None
     # every other population runs with falsy providers (empty collection-like listeners, a
     # model whose __bool__ is False): nothing observable may depend on their truth value
-    built = build(m, falsy=(sum(pop) % 2 == 1))
+    built = build(m, falsy=(sum(pop) % 2 == 1), split=4 if kind == "inherited" else None)
     eng = "async" if mask.startswith("async") else "sync"
     cfg = Cfg(eng, mask != "sync-nonrtc", False, "facade" if eng == "async" else "direct")
     p = Pair(built, cfg, deep=True)
@@ -163,7 +170,7 @@ def run_scenario(pop, kind, ev, mask):
     if r:
         return r, p
     # come back and fire again: exactly-once must hold the second time too
-    if kind in ("external", "rejected-first", "rejected-twin"):
+    if kind in ("external", "rejected-first", "rejected-twin", "inherited"):
         r = p.send("back", dict(VALS), tag="t1")
         if r:
             return r, p
